@@ -63,6 +63,16 @@ def filterItem (pred : EvalM Value) (value : Value) : EvalM Bool :=
     else bracket own (bracket special test)
   | _ => bracket special test
 
+/-- The closure `eval_for_item` of `build_filter`: the filter expression evaluated in the scope of
+one item (the same brackets as `filterItem`); used for a left operand that is not a list. -/
+def itemScoped (pred : EvalM Value) (value : Value) : EvalM Value :=
+  let special : Ctx := Ctx.set [] "item" value
+  match value with
+  | .ctx own =>
+    if Ctx.contains own "item" then bracket own pred
+    else bracket own (bracket special pred)
+  | _ => bracket special pred
+
 def filterLoop (pred : EvalM Value) : List Value → EvalM (List Value)
   | [] => pure []
   | v :: vs => do
@@ -78,14 +88,20 @@ def forLoop (body : EvalM Value) : List Ctx → List Value → EvalM (List Value
     forLoop body cs (results ++ [r])
 
 /-- `SomeExpressionEvaluator::evaluate` / `EveryExpressionEvaluator::evaluate` -/
-def quantLoop (isSome : Bool) (sat : EvalM Value) : List Ctx → Bool → EvalM Bool
+def quantLoop (isSome : Bool) (sat : EvalM Value) : List Ctx → Bool × Bool → EvalM (Bool × Bool)
   | [], acc => pure acc
   | c :: cs, acc => do
     let r ← bracket c sat
-    let acc' := match r with
-      | .bool b => if isSome then acc || b else acc && b
-      | _ => acc
+    let acc' : Bool × Bool := match r with
+      | .bool b => (if isSome then acc.1 || b else acc.1 && b, acc.2)
+      | _ => (acc.1, true)
     quantLoop isSome sat cs acc'
+
+/-- The end of `SomeExpressionEvaluator::evaluate` / `EveryExpressionEvaluator::evaluate`:
+`(result, unknown)` — null when a body value was not a boolean and the booleans did not decide
+(`some`: none was true; `every`: none was false). -/
+def quantResult (isSome : Bool) (acc : Bool × Bool) : Value :=
+  if acc.2 && (if isSome then !acc.1 else acc.1) then .null else .bool acc.1
 
 
 /-- `FeelContext::search_deep` -/
@@ -97,9 +113,15 @@ def ctxSearchDeep (c : Ctx) : List String → Option Value
     | some (.ctx sub) => ctxSearchDeep sub (m :: rest)
     | _ => none
 
-/-- `Scope::search_deep`: from the top of the stack down. -/
+/-- `Scope::search_deep`: the first context from the top of the stack that binds the first
+name decides (as in `Scope::get_entry`). -/
 def scopeSearchDeep (s : Scope) (names : List String) : Option Value :=
-  s.reverse.findSome? (fun c => ctxSearchDeep c names)
+  match names with
+  | [] => none
+  | first :: _ =>
+    match s.reverse.find? (fun c => Ctx.contains c first) with
+    | some c => ctxSearchDeep c names
+    | none => none
 
 /-- sorted insert into a context *type* (`BTreeMap<Name, FeelType>::insert`) -/
 def typeCtxInsert (es : List (String × FType)) (k : String) (t : FType) : List (String × FType) :=
@@ -145,6 +167,11 @@ def bindNamed : List (String × FType) → List (String × Value × Nat) → Ctx
     | some a => bindNamed ps m (Ctx.set cx n (Value.coerced t a))
     | none => none
 
+/-- `map.keys().any(|name| !parameters.iter().any(|(parameter_name, _)| parameter_name == name))`
+in `eval_function_named`: an argument whose name is not the name of a formal parameter. -/
+def unknownNamed (ps : List (String × FType)) (m : List (String × Value × Nat)) : Bool :=
+  m.any (fun e => !ps.any (fun p => p.1 == e.1))
+
 /-- `eval_function_definition`: push the arguments on the *current* scope, run the body
 there, pop, coerce the result. -/
 def callFunction (env : Env) (args : Ctx) (body : Ast) (rt : FType) : EvalM Value := do
@@ -155,9 +182,11 @@ def invokePositional (env : Env) (f : Value) (args : List Value) : EvalM Value :
   match f with
   | .bif name => lift (env.bifPos name args)
   | .fn ps body rt =>
-    match bindPositional ps args [] with
-    | some cx => callFunction env cx body rt
-    | none => pure .null
+    if args.length > ps.length then pure .null
+    else
+      match bindPositional ps args [] with
+      | some cx => callFunction env cx body rt
+      | none => pure .null
   | _ => pure .null
 
 def invokeNamed (env : Env) (f : Value) (args : Value) : EvalM Value :=
@@ -169,13 +198,16 @@ def invokeNamed (env : Env) (f : Value) (args : Value) : EvalM Value :=
   | .fn ps body rt =>
     match args with
     | .namedParams m =>
-      match bindNamed ps m [] with
-      | some cx => callFunction env cx body rt
-      | none => pure .null
+      if unknownNamed ps m then pure .null
+      else
+        match bindNamed ps m [] with
+        | some cx => callFunction env cx body rt
+        | none => pure .null
     | _ => callFunction env [] body rt
   | _ => pure .null
 
-/-- What `build_for` makes of its iteration contexts. -/
+/-- What `build_for` / `build_some` / `build_every` make of their iteration contexts
+(`notIterable`: a domain is null, or the ends of a range are not integers — the result is null). -/
 inductive IterDomains where
   | states (l : List (Nat × Iter.State))
   | empty
@@ -195,6 +227,12 @@ def rangeState (name : String) (lo hi : Value) : Option Iter.State :=
     | _, _ => none
   | _, _ => none
 
+/-- The value of a context literal: null when a key occurred twice. -/
+def ctxResult (c : Option Ctx) : Value :=
+  match c with
+  | some c => .ctx c
+  | none => .null
+
 /-! ## the evaluator proper -/
 
 mutual
@@ -210,7 +248,7 @@ def evalStep (env : Env) : Ast → EvalM Value
     push []
     let c ← evalContextEntries env es []
     pop
-    pure (.ctx c)
+    pure (ctxResult c)
   | .contextEntry k v => do let l ← evalStep env k; let r ← evalStep env v; pure (contextEntryV l r)
   | .contextEntryKey n => pure (.ctxEntryKey n)
   | .contextType es => do
@@ -233,11 +271,12 @@ def evalStep (env : Env) : Ast → EvalM Value
     | .quantifiedContexts items, .satisfies body => do
       let states ← evalQuantified env items 0
       match states with
-      | none => pure (.bool true)
-      | some states => do
+      | .empty => pure (.bool true)
+      | .notIterable => pure .null
+      | .states states => do
         let cs ← lift (env.iter states)
-        let r ← quantLoop false (evalStep env body) cs true
-        pure (.bool r)
+        let r ← quantLoop false (evalStep env body) cs (true, false)
+        pure (quantResult false r)
     | _, _ => pure unsupported
   | .exp a b => do let l ← evalStep env a; let r ← evalStep env b; pure (expV env.num l r)
   | .expressionList xs => do let vs ← evalList env xs; pure (.exprList vs)
@@ -253,7 +292,7 @@ def evalStep (env : Env) : Ast → EvalM Value
       | _ => pure (filterResult filtered)
     | other =>
       if isFilterScalar other then do
-        let rhv ← evalStep env b
+        let rhv ← itemScoped (evalStep env b) other
         pure (filterScalar other rhv)
       else pure .null
   | .for ctxs body =>
@@ -374,11 +413,12 @@ def evalStep (env : Env) : Ast → EvalM Value
     | .quantifiedContexts items, .satisfies body => do
       let states ← evalQuantified env items 0
       match states with
-      | none => pure (.bool false)
-      | some states => do
+      | .empty => pure (.bool false)
+      | .notIterable => pure .null
+      | .states states => do
         let cs ← lift (env.iter states)
-        let r ← quantLoop true (evalStep env body) cs false
-        pure (.bool r)
+        let r ← quantLoop true (evalStep env body) cs (false, false)
+        pure (quantResult true r)
     | _, _ => pure unsupported
   | .string s => pure (.str s)
   | .sub a b => do let l ← evalStep env a; let r ← evalStep env b; pure (subV env.num l r)
@@ -402,37 +442,42 @@ def evalList (env : Env) : List Ast → EvalM (List Value)
 termination_by structural as => as
 
 /-- The loop of `build_context`: every evaluated entry goes into the result and into the
-special context on top of the scope, where later entries see it. -/
-def evalContextEntries (env : Env) : List Ast → Ctx → EvalM Ctx
-  | [], acc => pure acc
+special context on top of the scope, where later entries see it; `none`: a key occurs twice
+(the closure pops the special context and returns null). -/
+def evalContextEntries (env : Env) : List Ast → Ctx → EvalM (Option Ctx)
+  | [], acc => pure (some acc)
   | e :: es, acc => do
     let v ← evalStep env e
     match v with
-    | .ctxEntry k val => do
-      setEntry k val
-      evalContextEntries env es (Ctx.set acc k val)
+    | .ctxEntry k val =>
+      if Ctx.contains acc k then pure none
+      else do
+        setEntry k val
+        evalContextEntries env es (Ctx.set acc k val)
     | _ => evalContextEntries env es acc
 termination_by structural es => es
 
 /-- The domains of `some` / `every`: `QuantifiedContext(Name, expr)` items, in order.
-`none`: a domain evaluated to the empty list (the closure returns at once). -/
-def evalQuantified (env : Env) : List Ast → Nat → EvalM (Option (List (Nat × Iter.State)))
-  | [], _ => pure (some [])
+`.notIterable`: a domain evaluated to null; `.empty`: a domain evaluated to the empty list
+(the closure returns at once in both cases). -/
+def evalQuantified (env : Env) : List Ast → Nat → EvalM IterDomains
+  | [], _ => pure (.states [])
   | item :: items, pos =>
     match item with
     | .quantifiedContext (.name n) e => do
       let v ← evalStep env e
       match v with
-      | .list [] => pure none
+      | .null => pure .notIterable
+      | .list [] => pure .empty
       | _ => do
         let rest ← evalQuantified env items (pos + 1)
-        pure (rest.map (fun r => (pos, Iter.mkList n (listOf v)) :: r))
+        pure (rest.cons (pos, Iter.mkList n (listOf v)))
     | _ => evalQuantified env items (pos + 1)
 termination_by structural items => items
 
 /-- `build_for`: the iteration contexts, evaluated and added to the iterator in the order
 of declaration. `.empty`: a list domain evaluated to the empty list (the result is `[]`);
-`.notIterable`: the ends of a range are not integers (the result is null). Both end the
+`.notIterable`: a domain is null or the ends of a range are not integers (the result is null). Both end the
 evaluation of the iteration contexts at once. -/
 def evalIteration (env : Env) : List Ast → Nat → EvalM IterDomains
   | [], _ => pure (.states [])
@@ -441,6 +486,7 @@ def evalIteration (env : Env) : List Ast → Nat → EvalM IterDomains
     | .iterationContextSingle (.name n) e => do
       let v ← evalStep env e
       match v with
+      | .null => pure .notIterable
       | .list [] => pure .empty
       | _ => do
         let rest ← evalIteration env items (pos + 1)
